@@ -85,6 +85,8 @@ def enumerate_target(tg, rec, label, max_events=None):
     lib = tg.lib
     # ---- census + ordering invariant ----------------------------------------------
     tg.reset()
+    boundary.call(lib, tg.invoke)  # warm-up: first-time imports and caches are not part of the event sequence
+    tg.reset()
     cen = sysmon.Census(lib.pkg_dir)
     bad_close = []
 
@@ -132,7 +134,7 @@ def enumerate_target(tg, rec, label, max_events=None):
     # ---- one run per event ----------------------------------------------------------
     idxs = list(range(0, open_idx))
     for i in range(open_idx, min(write_idx, len(trace))):
-        if trace[i][0] == "C" and not trace[i][4].endswith("write") and "open" != trace[i][4]:
+        if trace[i][0] in ("C", "S") and not trace[i][4].endswith("write") and "open" != trace[i][4]:
             idxs.append(i)
     if max_events and len(idxs) > max_events:
         rnd = random.Random(len(trace))
@@ -145,13 +147,22 @@ def enumerate_target(tg, rec, label, max_events=None):
         ev = trace[i]
         tg.reset()
         fp = sysmon.FailAt(lib.pkg_dir, i, ev[0])
-        with fp:
-            o = boundary.call(lib, tg.invoke)
-        site = "%s:%s:%s" % (ev[1], ev[2], ev[3] if ev[0] == "L" else "call " + ev[4])
+        # same open() proxy as in the census run, so that both runs produce the same event sequence (callee entries
+        # reached through the built-in open are attributed to its caller)
+        with audit.FileWatch(tg.path):
+            with fp:
+                o = boundary.call(lib, tg.invoke)
+        site = "%s:%s:%s" % (ev[1], ev[2], ev[3] if ev[0] == "L" else ("call " if ev[0] == "C" else "entry of ") + ev[4])
         phase = "before-open" if i < open_idx else "between-open-and-write"
         rec.case("%s|%s|%s" % (tg.kind, site, phase))
         if not fp.fired:
             rec.count("injections_not_delivered")
+            rec.hist("not_delivered_by", "%s:%s" % (tg.kind, ev[0]))
+            continue
+        if not _same_event(fp.event, ev):
+            # the faulted run did not replay the census run event for event: the phase label would be wrong
+            rec.count("injection_site_mismatch")
+            rec.hist("site_mismatch_by", "%s:%s" % (tg.kind, ev[0]))
             continue
         delivered += 1
         rec.count("injections_delivered")
@@ -178,6 +189,15 @@ def enumerate_target(tg, rec, label, max_events=None):
     # ---- faults inside the primitives ------------------------------------------------
     primitive_faults(tg, rec, case)
     tg.reset()
+
+
+def _same_event(a, b):
+    if a is None or a[:3] != b[:3]:
+        return False
+    if a[0] == "L":
+        return a[3] == b[3]
+    # callee names differ between the watched census run (file proxy) and the faulted run (real file object)
+    return a[4] == b[4] or any(x in a[4] or x in b[4] for x in ("open", "write", "__exit__", "__enter__", "close"))
 
 
 TARGET_NAMES = ["repodata.json", "repodata.json", "repodata.json.tmp", "repodata.tmp", "repodata.json.orig", "repodata.json.bak", "repodata",
@@ -526,9 +546,12 @@ def run_shard(spec, rec, lib):
 def finish(merged, tier, seed):
     if merged.counters.get("injections_delivered", 0) == 0:
         merged.inconclusive_because("no fault injection was delivered")
+    if not merged.hists.get("injection_phase", {}).get("between-open-and-write") and not merged.counters.get("multiple_write_opens"):
+        # informational: single-write output phase has no call between open and write (that is the expected shape)
+        merged.counters.setdefault("output_phases_without_intermediate_calls", 1)
     if merged.counters.get("documents_enumerated", 0) == 0:
         merged.inconclusive_because("no document was enumerated")
-    nd = merged.counters.get("injections_not_delivered", 0)
+    nd = merged.counters.get("injections_not_delivered", 0) + merged.counters.get("injection_site_mismatch", 0)
     if nd > merged.counters.get("injections_delivered", 0) // 10:
         merged.inconclusive_because("%d injections were not delivered (trace not reproducible)" % nd)
 
